@@ -18,6 +18,7 @@ CONSTANTS
  K = 4
  LoopChecksFlag = TRUE
  AssertLine = TRUE
+ CapOrder <- GCap
  StopAllowed = FALSE
 INIT MCInit
 NEXT Next
